@@ -2,7 +2,7 @@
 from . import compile_common as cc
 
 LEVEL_TEXT = (
-    "Lean 4 theorems over the model of compile_redeemers and of the whole compile, and - from the source - over the lowering model: a redeemer written as a data expression (integer expressions, literals, records and variants in any field order, lists) yields the same Plutus Data in every position it may be lowered in, and a policy name is its hash in every position but an address position (C08_redeemer_position_immaterial, C08_policy_name_as_data); every redeemer of a successfully "
+    "Lean 4 theorems over the model of compile_redeemers and of the whole compile, and - from the source - over the lowering model: a redeemer written as a data expression (integer expressions, literals, records and variants in any field order, lists) yields the same Plutus Data in every position it may be lowered in, and a policy name is its hash in every position but an address position (C08_redeemer_position_immaterial, C08_policy_name_as_data), and a map-valued redeemer keeps its entries in the order written (C01_map_literal); every redeemer of a successfully "
     "compiled transaction is attached to the item it was written for and carries that block's data "
     "(C08_redeemers_sound) - a spend redeemer comes from an input block that carries one and its index is the position "
     "of one of the block's UTxOs in the sorted distinct body inputs; a mint redeemer comes from a mint or burn block "
@@ -15,10 +15,11 @@ LEVEL_TEXT = (
 )
 LEVEL_NOTE = cc.MODEL_NOTE + ". That the ledger sorts items the way the model does (inputs by (txid, index), policies and reward accounts bytewise) is the ledger's rule, checked per case against what pallas decodes."
 PROP = "C08"
-TARGETS = ["Tx3Proofs.C08", "Tx3Proofs.C08Lang"]
+TARGETS = ["Tx3Proofs.C08", "Tx3Proofs.C08Lang", "Tx3Proofs.C01Map"]
 THEOREMS = ["Tx3.indexOf?_get", "Tx3.C08_spend_sound", "Tx3.insertRedeemer_keeps", "Tx3.insertRedeemer_present", "Tx3.C08_map_exact",
             "Tx3.policies_sound", "Tx3.C08_mint_sound", "Tx3.C08_reward_sound", "Tx3.C08_redeemers_sound",
-    "Tx3.Lang.C08_redeemer_position_immaterial", "Tx3.Lang.C08_policy_name_as_data"]
+    "Tx3.Lang.C08_redeemer_position_immaterial", "Tx3.Lang.C08_policy_name_as_data",
+    "Tx3.Lang.C01_map_literal"]
 ASSUMPTIONS = [cc.MODEL_NOTE, "redeemer data equality in the model is PData's structural ==",
                "txids/indices/policies are drawn from small pools so that all relative orders occur"]
 
